@@ -179,6 +179,12 @@ func (e *Engine) havocCall(fc *fnCtx, st *State, callee *ssa.Function, c *ssa.Ca
 			break
 		}
 		e.shallowHavoc(st, a, c.Args[i].Type())
+		// a pointer passed as `any` (json.Unmarshal(data, &v), Decode(&v)): the pointee may be overwritten
+		if mi, ok := c.Args[i].(*ssa.MakeInterface); ok {
+			if _, isPtr := mi.X.Type().Underlying().(*types.Pointer); isPtr {
+				e.shallowHavoc(st, e.dataVal(e.val(fc, mi.X)), mi.X.Type())
+			}
+		}
 	}
 	return e.freshVal("ext_"+callee.Name(), resT)
 }
